@@ -384,12 +384,18 @@ def rule_scan_loops(ctx: Ctx, rule: str, which: set[str] | None = None) -> None:
     # ... and so does a range check: the character that completed (or failed to complete) a range cannot end another one
     bad_c2 = []
     n_c2 = 0
+    # the variable that holds the pending range end: what the loop hands to _handle_posix as its third argument
+    er0 = None
+    for p in rows:
+        for e in p.of('call'):
+            if e[1] == f'{WP}:WcParse._handle_posix' and len(e[2]) >= 3 and _tag(e[2][2]).startswith('loop@while:'):
+                er0 = _tag(e[2][2])[len('loop@while:'):]
     for p in rows:
         focus(p)
         rc = [e for e in p.of('call') if e[1] == f'{WP}:WcParse._sequence_range_check']
         if not rc:
             continue
-        ers = {k[len('loop@while:'):] for k in p.decisions if k.startswith('loop@while:') and 'i.index' not in k and k.count(':') == 1}
+        ers = {er0} if er0 else set()
         for e in p.of('iterend'):
             if e[2] != 'next':
                 continue
